@@ -1283,7 +1283,7 @@ def run(ctx: Ctx):
     flush(ctx, pending)
     run_cases(ctx, corner_cases(), pending)
     flush(ctx, pending)
-    n = ctx.pick(110, 1500)
+    n = ctx.pick(110, 2500)
     run_cases(ctx, [make_case(rng) for _ in range(n)], pending)
     flush(ctx, pending)
 
